@@ -14,6 +14,7 @@ def schema_fields(cls):
     decls = {}
     for c in reversed(cls.mro()):
         for k, v in c.ns.items():
+            unpoisoned(v)  # a field whose declaration is outside the subset: so is every load / dump of the schema
             if isinstance(v, LibObj) and v.kind == "mm_field":
                 decls[k] = v
     meta = cls.ns.get("Meta")
